@@ -216,7 +216,9 @@ func runConcCore(t *testing.T, p *Plan, ns string) *Outcome {
 			}
 			seed := s.NewEmbeddedClient(inst, "seed")
 			for _, op := range p.Init {
-				seed.DoSync(op.Args...)
+				if op.Kind != "cseed" {
+					seed.DoSync(op.Args...)
+				}
 			}
 			cs := make([]*Client, nclients)
 			for i := range cs {
@@ -227,6 +229,11 @@ func runConcCore(t *testing.T, p *Plan, ns string) *Outcome {
 					}
 				} else {
 					cs[i] = s.NewEmbeddedClient(inst, fmt.Sprintf("i%dc%d", id, i))
+				}
+			}
+			for _, op := range p.Init {
+				if op.Kind == "cseed" && len(cs) > 0 {
+					cs[op.C%len(cs)].DoSync(op.Args...) // seeds the database that connection has selected
 				}
 			}
 			return inst, cs
